@@ -303,6 +303,9 @@ def check(ctx, R):
     R.run("C06.h", rule_h, ctx)
     from . import preds
     R.run("C06.p", lambda R, c: preds.rule(R, c, "C06.p", ["block_is_deleted", "slice_is_deleted"]), ctx)
+    from . import c02
+    R.run("C06.j", lambda R, c: c02.rule_g(R, c, "C06.j"), ctx)
+    R.run("C06.k", lambda R, c: c02.rule_h(R, c, "C06.k"), ctx)
     from . import shared as _sh
     R.run("C06.i", lambda R, c: _sh.unapplied_within_range(R, c, "C06.i"), ctx)
     return {}
